@@ -121,9 +121,11 @@ def gen_plan(seed, tier, index=0, avoid=()):
     for i in range(nsteps):
         k = rng.random()
         if k < 0.3 or (i == 0 and k < 0.8):
-            n = rng.randint(0, h + 1)
+            # at least one row: cursor_pos must designate an array cell (with top_usable_row pushed to
+            # the screen height by earlier movements an empty array has no on-screen cell for the cursor)
+            n = rng.randint(1, h + 1)
             rows = [gen.gen_row(rng, rng.randint(0, w), 0.7) for _ in range(n)]
-            cr = rng.randrange(n) if n else 0
+            cr = rng.randrange(n)
             steps.append({"op": "render", "rows": rows, "cursor": [cr, rng.randrange(w)]})
         elif k < 0.6:
             d = rng.choice((1, -1, 2, -2, rng.randint(-h - 2, h + 2)))
@@ -160,10 +162,10 @@ def valid(p):
                 return False
         elif st["op"] == "render":
             rows = st["rows"]
-            if any(gen.row_len(r) > c["w"] for r in rows):
+            if not rows or any(gen.row_len(r) > c["w"] for r in rows):
                 return False
             cr, cc = st["cursor"]
-            if not (0 <= cc < c["w"]) or not (0 <= cr < max(1, len(rows))):
+            if not (0 <= cc < c["w"]) or not (0 <= cr < len(rows)):
                 return False
         elif st["op"] == "diff":
             if REPORT_RE.search(st["noise"]):
